@@ -14,6 +14,7 @@
    refinement of the loop model; it is the extracted checker check_C17 that judges every implementation trace. *)
 From PS Require Import Lib.Base Lib.Struct Generated.Consts Model.SdTypes Model.Session Model.Someip Model.SdCodec
   Model.ServiceStack Spec.C01Spec Spec.C08Spec Spec.C17Spec Proofs.C01Proofs Proofs.C07Proofs Proofs.C17Proofs.
+From PS Require Import Model.Skel Generated.LogicGen Proofs.GenService.
 
 Theorem C17_datagram_is_the_notifications : forall w e spec, values_ok w ->
   forall buf s', build_notifications w (ep_dest e) (events_of spec w) [] (s_sess w) = Some (buf, s') ->
@@ -87,6 +88,36 @@ Example C17_example : let r := srun_scenario ex_sc in
   snd r = true /\ check_C17 ex_sc (rev (s_out (fst r))) = [] /\ Nat.leb 6 (length (s_out (fst r))) = true.
 Proof. vm_compute. auto. Qed.
 
+(* who is accepted and how subscriptions are counted is the logic translated from the source text of service.py on every run:
+   a subscription is accepted exactly for a known eventgroup and exactly ONE endpoint (whatever its protocol or family);
+   subscribe adds one to the endpoint's count, unsubscribe takes one off and removes the endpoint when none is left *)
+Theorem C17_client_subscribed_is_the_translated_source : forall eg eps w,
+  exec_sapi (SSubscribe eg eps) w
+  = if gen_client_subscribed_accepts (eg =? s_eg w) (N.of_nat (length eps))
+    then match eps with e :: _ => eg_subscribe e w | [] => w end
+    else semit SvNak w.
+Proof. exact client_subscribed_is_the_translated_source. Qed.
+Theorem C17_subscribe_counts_as_the_translated_source : forall e w,
+  s_eps (eg_subscribe e w)
+  = match aget ep_eqb e (s_eps w) with
+    | Some n => aset ep_eqb e (gen_eg_subscribe_count n) (s_eps w)
+    | None => s_eps w ++ [(e, gen_eg_subscribe_count 0)]
+    end.
+Proof. exact eg_subscribe_counts_as_the_translated_source. Qed.
+Theorem C17_unsubscribe_is_the_translated_source : forall e w,
+  eg_unsubscribe e w
+  = match gen_eg_unsubscribe (match aget ep_eqb e (s_eps w) with Some _ => true | None => false end)
+                             (match aget ep_eqb e (s_eps w) with Some n => n | None => 0 end) with
+    | None => (w, false)
+    | Some r =>
+        let eps := match r with None => adel ep_eqb e (s_eps w) | Some c => aset ep_eqb e c (s_eps w) end in
+        (sw_group eps (match eps with [] => false | _ => s_has_clients w end) (s_cy_waiting w) w, true)
+    end.
+Proof. exact eg_unsubscribe_is_the_translated_source. Qed.
+
+Print Assumptions C17_client_subscribed_is_the_translated_source.
+Print Assumptions C17_subscribe_counts_as_the_translated_source.
+Print Assumptions C17_unsubscribe_is_the_translated_source.
 Print Assumptions C17_datagram_is_the_notifications.
 Print Assumptions C17_header_fields.
 Print Assumptions C17_one_notification_per_event_in_order.
